@@ -116,6 +116,8 @@ def blocks(ft, mode):
         node.append(f"    kids: List[{q('Node')}] = field(default_factory=list)")
     if ft["union"]:
         node.append("    u: Union[int, Inner, None] = None")
+    # a member declared through field(metadata=...) that Child re-declares with a plain default (no alias there)
+    node.append("    tagv: int = field(default=1, metadata=field_options(alias='TG'))")
     node_src = "\n".join(node) + "\n" + cfg(d_all)
     out = {"Inner": inner_src, "Node": node_src}
     order = ["Inner", "Node"]
@@ -123,7 +125,7 @@ def blocks(ft, mode):
         out["Page"] = ("T = TypeVar('T')\n@dataclass\n" + f"class Page({base}, Generic[T]):\n    items: List[T] = field(default_factory=list)\n    first: Optional[T] = None\n" + cfg(d_all))
         order.append("Page")
     if ft["child"]:
-        out["Child"] = "@dataclass\n" + f"class Child(Node):\n    extra: Optional[datetime.date] = None\n" + cfg(d_all)
+        out["Child"] = "@dataclass\n" + f"class Child(Node):\n    extra: Optional[datetime.date] = None\n    tagv: int = 5\n" + cfg(d_all)
         order.append("Child")
     holder = ["@dataclass", f"class Holder({base}):", "    node: Node = field(default_factory=lambda: Node())", "    inners: List[Inner] = field(default_factory=list)"]
     if ft["generic"]:
@@ -194,7 +196,7 @@ def make_values(mod, ft):
         h.p3 = mod.Page([D(2010, 10, 10)], None)
         h.p4 = mod.Page([mod.other.Inner("q", datetime.datetime(2020, 1, 2, 3, 4, 5))], mod.other.Inner("first"))
     if ft["child"]:
-        vals["Child"] = mod.Child(3, inner, extra=D(2022, 2, 2))
+        vals["Child"] = mod.Child(3, inner, extra=D(2022, 2, 2), tagv=7)
         h.child = vals["Child"]
     vals["Holder"] = h
     if ft["generic"]:
@@ -249,8 +251,67 @@ def outcome(fn):
         return ("exc", f"{type(e).__name__}: {e}"[:160])
 
 
+def nofield_history_case(rng, tier, rec, st):
+    """field-less discriminator with SEVERAL classes accepting an input: which one wins is a function of the class
+    definitions (their place in the class tree), not of whether the first call happened before or after some of them
+    were defined.  Subject: define a prefix, call, define the rest, call.  Twin: define everything, then call."""
+    from mashumaro.codecs.basic import BasicDecoder
+    style = rng.choice(["annotated", "config"])
+    base = "(DataClassDictMixin)" if style == "config" or rng.random() < 0.5 else ""
+    cfgsrc = "    class Config(BaseConfig):\n        discriminator = Discriminator(include_subtypes=True, include_supertypes=True)\n" if style == "config" else ""
+    defs = [f"@dataclass\nclass R{base}:\n    r: int = 0\n{cfgsrc}"]
+    names = ["R"]
+    for i in range(rng.randint(3, 6)):
+        parent = rng.choice(names)
+        name = f"K{i}"
+        kindf = rng.choice(["req", "req", "catchall"])
+        body = f"    k{i}: int\n" if kindf == "req" else f"    d{i}: int = 0\n"
+        # required members after defaulted ones: keyword-only keeps every layout legal
+        defs.append(f"@dataclass(kw_only=True)\nclass {name}({parent}):\n{body}")
+        names.append(name)
+    cut = rng.randint(1, len(defs) - 1)
+    inputs = [{}, {"r": 1}] + [{f"k{i}": 1} for i in range(len(defs))] + [{f"k{i}": 1, f"k{j}": 2} for i in range(4) for j in range(i + 1, 5)]
+
+    def decoder(mod):
+        if style == "config":
+            return mod.R.from_dict
+        return BasicDecoder(eval("Annotated[R, Discriminator(include_subtypes=True, include_supertypes=True)]", mod.__dict__)).decode
+
+    def run(dec, d):
+        try:
+            return type(dec(dict(d))).__name__
+        except Exception as e:
+            return "raise:" + type(e).__name__
+    subject, twin = Family("c14n"), Family("c14nt")
+    try:
+        twin.exec_src("".join(defs))
+        tdec = decoder(twin.module)
+        expected = {repr(d): run(tdec, d) for d in inputs}
+        subject.exec_src("".join(defs[:cut]))
+        sdec = decoder(subject.module)
+        early = rng.sample(inputs, 3)
+        for d in early:
+            run(sdec, d)                        # the first calls, before the remaining classes exist
+        subject.exec_src("".join(defs[cut:]))
+        for d in inputs:
+            rec.evaluation()
+            got = run(sdec, d)
+            if got == expected[repr(d)]:
+                rec.count("nofield_history_agree")
+                rec.nontrivial(("nofield-history", style, cut, len(defs), repr(d)))
+            else:
+                rec.violation(f"nofield-history:{style}:result-depends-on-when-the-first-call-happened",
+                              {"source": "".join(defs), "defined_before_first_call": cut, "input": repr(d), "with_history": got, "all_defined_first": expected[repr(d)],
+                               "early_inputs": [repr(x) for x in early]}, {"scenario": "nofield-history", "style": style})
+    finally:
+        subject.dispose()
+        twin.dispose()
+
+
 def run_case(seed, tier, rec, st):
     rng = random.Random(seed)
+    if rng.random() < 0.06:
+        return nofield_history_case(rng, tier, rec, st)
     ft = features(rng)
     mode = rng.choice(["lazy", "postponed", "lazy", "postponed", "eager"])
     threads = rng.random() < 0.25
